@@ -39,6 +39,28 @@ fn compare(v: &V, want: &V, what: &str, patches: &[automerge::Patch], noop_resol
     Ok(())
 }
 
+/// Shape of a known finding family: an ingested change increments a register that was conflicted for its author
+/// (an Increment op with two or more predecessors). The increment supersedes the plain values of the register, which
+/// the remote patch path does not report; the view then differs in the flag, the type, the counter or rejects the
+/// Increment patch. One root cause, keyed on the shape instead of on the symptom.
+fn increment_over_conflict(changes: &[Change], not_by: Option<&automerge::ActorId>) -> bool {
+    changes.iter().any(|c| {
+        if Some(c.actor_id()) == not_by {
+            return false;
+        }
+        c.decode().operations.iter().any(|o| matches!(o.action, automerge::legacy::OpType::Increment(_)) && o.pred.len() >= 2)
+    })
+}
+
+const INC_OVER_CONFLICT_SIG: &str = "C09:view:remote:increment-over-conflicted-register";
+
+fn reclassify(r: CaseResult, shape: bool) -> CaseResult {
+    match r {
+        Err(f) if shape && f.sig.starts_with("C09:view:") && (f.sig.contains(":remote") || f.sig.contains("increment-non-counter")) => Err(Failure::new(INC_OVER_CONFLICT_SIG, f.detail)),
+        other => other,
+    }
+}
+
 /// style (a): AutoCommit with the diff cursor and diff_incremental
 pub fn check_autocommit(case: &Case, t: &mut Tally) -> CaseResult {
     let (p, seed) = case;
@@ -64,12 +86,21 @@ pub fn check_autocommit(case: &Case, t: &mut Tally) -> CaseResult {
             continue;
         }
         let patches = catch("diff_incremental", || it.reps[0].doc.diff_incremental())?;
-        apply_all(&mut v, &patches, enc, &format!("after steps {:?}", since_sync))?;
+        let applied = apply_all(&mut v, &patches, enc, &format!("after steps {:?}", since_sync));
+        if applied.is_err() {
+            let own = it.reps[0].doc.get_actor().clone();
+            let all = it.reps[0].doc.get_changes(&[]);
+            reclassify(applied, increment_over_conflict(&all, Some(&own)))?;
+        }
         let want = view::from_obs(&catch("observe", || observe(&it.reps[0].doc, None))?);
         let noop_now = it.classes.get("noop_conflict_resolution").copied().unwrap_or(0);
         let r = compare(&v, &want, &format!("after steps {:?} (step {i})", since_sync), &patches, noop_now > noop_seen);
         noop_seen = noop_now;
-        r?;
+        if r.is_err() {
+            let own = it.reps[0].doc.get_actor().clone();
+            let all = it.reps[0].doc.get_changes(&[]);
+            reclassify(r, increment_over_conflict(&all, Some(&own)))?;
+        }
         if since_sync.iter().any(|k| matches!(k.as_str(), "merge" | "apply_changes" | "sync" | "load_incremental")) && patches.iter().any(|p| matches!(p.action, automerge::PatchAction::Conflict { .. } | automerge::PatchAction::PutMap { conflict: true, .. } | automerge::PatchAction::PutSeq { conflict: true, .. } | automerge::PatchAction::DeleteMap { .. } | automerge::PatchAction::DeleteSeq { .. } | automerge::PatchAction::Increment { .. })) {
             nontrivial = true;
         }
@@ -265,7 +296,7 @@ pub fn check_manual(case: &Case, t: &mut Tally) -> CaseResult {
                     if std::env::var("VERIF_DEBUG").is_ok() {
                         eprintln!("   one change (ops {:?}): {:#?}", c2.decode().operations.iter().map(|o| format!("{:?} key={:?} pred={:?}", o.action, o.key, o.pred)).collect::<Vec<_>>(), view::describe_patches(&ps));
                     }
-                    apply_all(&mut v, &ps, enc, what)?;
+                    reclassify(apply_all(&mut v, &ps, enc, what), increment_over_conflict(&remote, None))?;
                 }
             }
         }
@@ -273,9 +304,9 @@ pub fn check_manual(case: &Case, t: &mut Tally) -> CaseResult {
         if std::env::var("VERIF_DEBUG").is_ok() {
             eprintln!("step {i} act {act} {what} src {src} remote {}: {:#?}", remote.len(), view::describe_patches(&patches));
         }
-        apply_all(&mut v, &patches, enc, what)?;
+        reclassify(apply_all(&mut v, &patches, enc, what), increment_over_conflict(&remote, None))?;
         let want = view::from_obs(&obs_of(&m, None, "logged doc")?);
-        compare(&v, &want, &format!("{what} (after step {i})"), &patches, noop_resolution)?;
+        reclassify(compare(&v, &want, &format!("{what} (after step {i})"), &patches, noop_resolution), increment_over_conflict(&remote, None))?;
         noop_resolution = false;
         t.class(format!("path_{what}"));
         if !remote.is_empty() && act != 4 && act != 5 && patches.iter().any(|p| matches!(p.action, automerge::PatchAction::Conflict { .. } | automerge::PatchAction::PutMap { conflict: true, .. } | automerge::PatchAction::PutSeq { conflict: true, .. } | automerge::PatchAction::DeleteMap { .. } | automerge::PatchAction::DeleteSeq { .. } | automerge::PatchAction::Increment { .. })) {
